@@ -343,6 +343,10 @@ class Sym:
                     return NotImplemented if op not in ("==", "!=") else (op == "!=")
             except ImportError:
                 return NotImplemented
+        if isinstance(other, float) and math.isinf(other):
+            # extended reals: every symbolic number is finite
+            pos = other > 0
+            return {"==": False, "!=": True, "<": pos, "<=": pos, ">": not pos, ">=": not pos}[op]
         ea, eb, _ = _num_operands(self, other)
         return wrap({"==": lambda: ea == eb, "!=": lambda: ea != eb, "<": lambda: ea < eb,
                      "<=": lambda: ea <= eb, ">": lambda: ea > eb, ">=": lambda: ea >= eb}[op]())
